@@ -293,7 +293,7 @@ Proof.
   - (* UCommit *)
     cbn [step]. destruct (alookup uid (ups s)) as [f|] eqn:Eu; [|discriminate].
     destruct (valid name) eqn:Ev; cbn; [|split; [discriminate|reflexivity]].
-    cbn in Hb. rewrite Ev in Hb. cbn in Hb.
+    cbn in Hb.
     unfold move_in, verify_ok. rewrite Ev, Hskip. cbn.
     apply negb_true_iff in Hb. rewrite Hb. cbn. split; [discriminate|reflexivity].
   - (* Create *)
@@ -385,10 +385,9 @@ End Proofs.
 Lemma view_ok_meaning : forall H name v, view_ok H name v = true -> view_good H name v.
 Proof.
   intros H name [d s m] Hv. unfold view_ok in Hv. cbn in Hv. apply andb_true_iff in Hv as [Hds Hm].
-  repeat split; cbn.
+  split; [|split]; cbn.
   - intros c Hc. subst d. destruct s; [|discriminate]. apply andb_true_iff in Hds as [Hh _]. now apply N.eqb_eq.
   - intros k Hk. subst s. destruct d as [c|]; [|discriminate]. apply andb_true_iff in Hds as [Hh Hl].
     apply N.eqb_eq in Hh, Hl. exists c. now repeat split.
-  - subst m. apply andb_true_iff in Hm as [Hn _]. now apply N.eqb_eq.
-  - subst m. apply andb_true_iff in Hm as [_ Hc]. now apply N.eqb_eq.
+  - intros nm c pl Hm'. subst m. apply andb_true_iff in Hm as [Hn Hc]. apply N.eqb_eq in Hn, Hc. now split.
 Qed.
